@@ -826,6 +826,15 @@ fn directed(class: &str) -> Vec<Value> {
                 ops.push(json!({"a": "rpc", "p": 0, "graft": [3]}));
             }
             v.push(json!({"cfg": c, "ops": ops}));
+            // the max-count filter as a member of a combination: its limits must still hold
+            let mut c = base(1, 3, 1, 1, 2);
+            c["filter"] = json!({"k": "comb2", "allow": [0, 1], "maxsubs": 1, "maxreq": 2});
+            v.push(json!({"cfg": c, "ops": [
+                {"a": "connect", "p": 0, "c": 0}, {"a": "kind", "p": 0, "c": 0},
+                {"a": "rpc", "p": 0, "subs": [[0, true], [1, true]]},
+                {"a": "rpc", "p": 0, "subs": [[0, true], [0, true], [0, true]]},
+                {"a": "rpc", "p": 0, "subs": [[0, true]]}, {"a": "rpc", "p": 0, "subs": [[1, true]]},
+                {"a": "rpc", "p": 0, "subs": [[0, false], [1, true]]}]}));
         }
         _ => {}
     }
